@@ -131,6 +131,11 @@ def body_interleave(c0, c1, tA, bodyA, opB, tB, bodyB, at):
             seen.append(u)
     if kind != "vdir":
         ok = ok and not mstore.dangling(_store.PATH)
+    if kind == "tree":
+        # non-bare collection: the working-tree files agree with what the collection serves (C09), also after
+        # overlapping and refused writes
+        on_disk = {n: w.files.get(_store.PATH + "/" + n) for n in w.listdir(_store.PATH) if n != ".git"}
+        ok = ok and on_disk == {n: data for n, (etag, data) in final.items()}
     cls = where + ":" + ("contended" if len(ran) < 2 else "both-ran")
     return (ok, cls)
 
